@@ -468,8 +468,15 @@ def rule_dbuf_set(repo):
 
 def _covers_all(loop, action_pred):
     """every iteration of `loop` executes a statement satisfying action_pred on every path"""
-    def escapes(s):
-        return any(isinstance(n, (ast.Continue, ast.Break, ast.Return)) for n in walk_no_nested(s))
+    def escapes(s, in_loop=False):
+        if isinstance(s, (ast.FunctionDef, ast.ClassDef, ast.Lambda)):
+            return False
+        if isinstance(s, ast.Return):
+            return True
+        if isinstance(s, (ast.Continue, ast.Break)):
+            return not in_loop          # inside a nested loop they only leave that loop
+        nested = in_loop or isinstance(s, (ast.For, ast.While))
+        return any(escapes(ch, nested) for ch in ast.iter_child_nodes(s))
 
     def must(stmts):
         for s in stmts:
